@@ -394,7 +394,7 @@ def variant_exec(name):
                 shutil.rmtree(os.path.join(cache, d), ignore_errors=True)
         scratch = "/tmp/memchr-verif-%s-%d" % (name, os.getpid())
         try:
-            if name in ("neon", "simd128"):
+            if name in ("neon", "simd128", "other"):
                 rc, out = sh([sys.executable, os.path.join(ROOT, "tools/emulate/mkemu.py"), name, scratch])
                 if rc != 0:
                     return None, out[-3000:]
